@@ -13,6 +13,7 @@ import (
 	"strconv"
 	"strings"
 	"sync"
+	"sync/atomic"
 	"time"
 )
 
@@ -39,6 +40,7 @@ type Backend struct {
 	argv    []string
 	timeout time.Duration
 	mu      sync.Mutex
+	gen     int64 // query generation (atomic): guards kills against hitting a later query
 }
 
 func startBackend(name string, timeoutMS int) (*Backend, error) {
@@ -440,6 +442,7 @@ type raceRes struct {
 func (p *Portfolio) race(backs []*Backend, asserts, extra, want []*Term) (Verdict, map[int]uint64, string) {
 	ch := make(chan raceRes, len(backs))
 	n := 0
+	launched := map[*Backend]int64{}
 	launch := func(b *Backend) {
 		script, w2, err := b.prepare(asserts, extra, want)
 		if err != "" {
@@ -447,6 +450,7 @@ func (p *Portfolio) race(backs []*Backend, asserts, extra, want []*Term) (Verdic
 			return
 		}
 		n++
+		launched[b] = atomic.AddInt64(&b.gen, 1)
 		go func() {
 			t0 := time.Now()
 			v, m, msg := b.exec(script, w2)
@@ -493,7 +497,7 @@ func (p *Portfolio) race(backs []*Backend, asserts, extra, want []*Term) (Verdic
 			if g < 200*time.Millisecond {
 				g = 200 * time.Millisecond
 			}
-			go p.drain(ch, rest, backs, r.b, g, r.v)
+			go p.drain(ch, rest, launched, r.b, g, r.v)
 		}
 		if d := time.Since(t0); d > 2*time.Second && os.Getenv("GOSYM_SLOW") != "" {
 			fmt.Fprintf(os.Stderr, "SLOW %.1fs winner=%s=%v asserts=%d extra=%v\n", d.Seconds(), r.b.name, r.v, len(asserts), extra)
@@ -517,7 +521,7 @@ func (p *Portfolio) race(backs []*Backend, asserts, extra, want []*Term) (Verdic
 	return Unknown, nil, strings.Join(why, "; ")
 }
 
-func (p *Portfolio) drain(ch chan raceRes, rest int, backs []*Backend, winner *Backend, grace time.Duration, wv Verdict) {
+func (p *Portfolio) drain(ch chan raceRes, rest int, launched map[*Backend]int64, winner *Backend, grace time.Duration, wv Verdict) {
 	timer := time.After(grace)
 	got := map[*Backend]bool{winner: true}
 	for rest > 0 {
@@ -535,8 +539,8 @@ func (p *Portfolio) drain(ch chan raceRes, rest int, backs []*Backend, winner *B
 			}
 			p.statMu.Unlock()
 		case <-timer:
-			for _, b := range backs {
-				if b != nil && !got[b] {
+			for b, g := range launched {
+				if !got[b] && atomic.LoadInt64(&b.gen) == g {
 					b.kill()
 				}
 			}
